@@ -137,9 +137,9 @@ def rnd_hist_msg(rng, alpha, n):
     return out
 
 
-def rnd_history(rng, maxops):
+def rnd_history(rng, maxops, fmt="U"):
     ks = rng.sample(H_KEYS, rng.choice([1, 2, 3, 5, 8]))
-    alpha = U_ALPHABETS[rng.choice(list(U_ALPHABETS))]
+    alpha = U_ALPHABETS[rng.choice(list(U_ALPHABETS))] if fmt == "U" else list(range(1, 128))     # legacy format: ASCII (Shift-JIS identity)
     ops = []
     for _ in range(rng.randint(0, maxops)):
         r = rng.random()
@@ -157,8 +157,8 @@ def rnd_history(rng, maxops):
     return ops
 
 
-def render_hist(endian, ops):
-    parts = ["txth", endian]
+def render_hist(fmt, endian, ops):
+    parts = ["txth", fmt, endian]
     for op in ops:
         parts.append(op[0])
         parts += [L(x) for x in op[1:]]
@@ -167,12 +167,12 @@ def render_hist(endian, ops):
 
 def parse_hist(line):
     t = line.split()
-    endian, ops, i = t[1], [], 2
+    fmt, endian, ops, i = t[1], t[2], [], 3
     while i < len(t):
         n = 3 if t[i] == "S" else 2
         ops.append(tuple([t[i]] + [list(unL(x)) for x in t[i + 1:i + n]]))
         i += n
-    return endian, ops
+    return fmt, endian, ops
 
 
 def hist_expected(ops):
@@ -286,13 +286,14 @@ class C06(PropertyCheck):
                     cases.append(Case(render(f, e, b"big", es), "api-roundtrip-large"))
 
         # -- histories of API calls (set / delete / re-add / set_title / lookups), then serialize -> from_bytes
-        for e in "LB":
+        for (f, e) in combos:
             for ops in ([], [("T", [84])], [("S", [107], [0x5C, 0x6E])], [("S", [107], [97]), ("D", [107])],
-                        [("S", [97], [1]), ("S", [98], [2]), ("S", [99], []), ("S", [97], [3]), ("D", [98]), ("S", [98], [0x1F600])],
-                        [("S", [], [0xFEFF]), ("D", [120]), ("S", [], [0x5C, 0x5C, 0x6E])]):
-                cases.append(Case(render_hist(e, ops), "history"))
+                        [("S", [97], [1]), ("S", [98], [2]), ("S", [99], []), ("S", [97], [3]), ("D", [98]), ("S", [98], [0x1F600 if f == "U" else 0x7E])],
+                        [("S", [], [0xFEFF if f == "U" else 0x7F]), ("D", [120]), ("S", [], [0x5C, 0x5C, 0x6E])]):
+                cases.append(Case(render_hist(f, e, ops), "history"))
         for _ in range(500 if quick else 8000):
-            cases.append(Case(render_hist(rng.choice("LB"), rnd_history(rng, 25 if quick else 80)), "history"))
+            f = "U" if rng.random() < 0.7 else "S"
+            cases.append(Case(render_hist(f, rng.choice("LB"), rnd_history(rng, 25 if quick else 80, f)), "history"))
 
         # -- the repository's own files
         for (name, f, e) in (("TextArchive_Test.bin", "U", "L"), ("TextArchive_Legacy_Test.bin", "S", "B")):
@@ -386,24 +387,27 @@ class C06(PropertyCheck):
         return None
 
     def oracle_history(self, case, impl_out):
-        endian, ops = parse_hist(case.line)
+        fmt, endian, ops = parse_hist(case.line)
         if not impl_out.startswith("ser=ok:"):
             return "serialize failed after a history of API calls: " + impl_out[:80]
         ser_tok, parse = impl_out[len("ser=ok:"):].split(" | parse=", 1)
         title, entries = hist_expected(ops)
+        if fmt == "S":
+            title = []                          # the legacy format stores no title
         want_line = "ok d0 T=%s [%s]" % (L(title), " ".join("%s=%s" % (L(k), L(m)) for (k, m) in entries))
         if parse != want_line:
             return "from_bytes(serialize(archive after the history)) differs from get_entries: want %s got %s" % (want_line[:300], parse[:300])
         try:
-            rt, res, problems = txtfile.text_read("U", endian, unB(ser_tok))
+            rt, res, problems = txtfile.text_read(fmt, endian, unB(ser_tok))
         except (txtfile.Malformed, struct.error) as ex:
             return "reference reader rejects the image: %s" % ex
         if problems:
             return "layout: " + "; ".join(problems[:4])
         if list(rt) != title:
             return "reference reader: title %r, want %r" % (rt, title)
-        if [(list(k), list(m)) for (k, m) in res] != [(k, utf16(m)) for (k, m) in entries]:
-            return "reference reader finds other entries than the history left (order, key labels or UTF-16 units)"
+        enc = utf16 if fmt == "U" else list
+        if [(list(k), list(m)) for (k, m) in res] != [(k, enc(m)) for (k, m) in entries]:
+            return "reference reader finds other entries than the history left (order, key labels or encoded message)"
         return None
 
     def oracle_txt(self, case, impl_out):
@@ -484,13 +488,13 @@ class C06(PropertyCheck):
 
     def shrink_candidates(self, case):
         if case.line.startswith("txth "):
-            endian, ops = parse_hist(case.line)
+            fmt, endian, ops = parse_hist(case.line)
             for i in range(len(ops)):
-                yield Case(render_hist(endian, ops[:i] + ops[i + 1:]), case.stream)
+                yield Case(render_hist(fmt, endian, ops[:i] + ops[i + 1:]), case.stream)
             for i, op in enumerate(ops):
                 if op[0] == "S" and len(op[2]) > 1:
                     for cut in (op[2][:len(op[2]) // 2], op[2][1:], op[2][:-1]):
-                        yield Case(render_hist(endian, ops[:i] + [("S", op[1], cut)] + ops[i + 1:]), case.stream)
+                        yield Case(render_hist(fmt, endian, ops[:i] + [("S", op[1], cut)] + ops[i + 1:]), case.stream)
             return
         if not case.line.startswith("txt "):
             return
@@ -530,8 +534,8 @@ MANIFEST = dict(
          "C06_layout_bytes: the layout read off the parsed image) follows from the bin-archive round trip C01, whose hypotheses wf_archive / fits32 "
          "are proved for every archive the text writer builds when the image is smaller than 4 GiB (Proofs/TextBinBridge.v; no premise, no axiom). "
          "Link to C07 (C06_history_round_trip): after ANY history of set_message (with its escape handling) / delete_message / set_title / lookups "
-         "from TextArchive::new, serialize -> from_bytes returns the title and exactly get_entries (Unicode format; keys/title NUL-free ASCII, "
-         "messages NUL-free Rust strings), with str::encode_utf16 and the UTF-16 decoder modelled on scalar values and proved mutually inverse "
+         "from TextArchive::new, serialize -> from_bytes returns the title and exactly get_entries (Unicode format: keys/title NUL-free ASCII, "
+         "messages NUL-free Rust strings; legacy format, C06_history_round_trip_legacy: everything NUL-free ASCII, no title stored), with str::encode_utf16 and the UTF-16 decoder modelled on scalar values and proved mutually inverse "
          "(C06_utf16_codec, C06_utf16_units_are_strings). Model tied to /repo on every run: serialize image byte-exact vs the extracted model, re-parsed entries vs "
          "input and model, image examined by an independent Python reference reader, histories of API calls pushed through the real library, the "
          "C07 model composed with the C06 model, and Python's own ordered dict (kind txth), the two game files, from_archive on API-built archives, "
